@@ -139,6 +139,9 @@ func (lp *linProver) resolveFieldLoad(v ssa.Value) ssa.Value {
 	if !ok {
 		return v
 	}
+	if w := localAllocFieldStore(u, fa); w != nil {
+		return w
+	}
 	b := u.Block()
 	idx := -1
 	for i, in := range b.Instrs {
@@ -782,4 +785,96 @@ func (lp *linProver) proveInvariant(inv lenInv) (bool, ssa.Instruction, int) {
 		}
 	}
 	return true, nil, n
+}
+
+// localAllocFieldStore: u loads field F of a struct allocated in this very
+// function (`x := &T{...}`); the field is written exactly once, by a store
+// that dominates the load, and on no path from the allocation to the load has
+// the struct been handed to anything (call argument, store, closure binding,
+// return, channel send): then the load yields the stored value.
+func localAllocFieldStore(u *ssa.UnOp, fa *ssa.FieldAddr) ssa.Value {
+	al, ok := fa.X.(*ssa.Alloc)
+	if !ok || al.Parent() != u.Parent() || al.Referrers() == nil {
+		return nil
+	}
+	var store *ssa.Store
+	after := func(a, b ssa.Instruction) bool { // a strictly after b in the same block
+		seen := false
+		for _, in := range a.Block().Instrs {
+			if in == b {
+				seen = true
+			} else if in == a {
+				return seen
+			}
+		}
+		return false
+	}
+	escapes := func(e ssa.Instruction) bool { // may the escape at e happen before the load?
+		if e.Block() == u.Block() {
+			if !after(e, u) {
+				return true
+			}
+			for _, s := range e.Block().Succs { // in a cycle
+				if reachable(s, e.Block()) {
+					return true
+				}
+			}
+			return false
+		}
+		return reachable(e.Block(), u.Block())
+	}
+	for _, ref := range *al.Referrers() {
+		switch x := ref.(type) {
+		case *ssa.FieldAddr:
+			if x.Referrers() == nil {
+				continue
+			}
+			for _, r2 := range *x.Referrers() {
+				switch y := r2.(type) {
+				case *ssa.Store:
+					if y.Addr != ssa.Value(x) { // the field's address is stored somewhere
+						if escapes(y) {
+							return nil
+						}
+						continue
+					}
+					if x.Field == fa.Field {
+						if store != nil {
+							return nil
+						}
+						store = y
+					}
+				case *ssa.UnOp, *ssa.FieldAddr, *ssa.DebugRef:
+					if fa2, isFA := y.(*ssa.FieldAddr); isFA {
+						_ = fa2 // nested embedded struct field: written through a different path; only F itself matters
+						if x.Field == fa.Field {
+							return nil
+						}
+					}
+				default:
+					if x.Field == fa.Field || true {
+						if escapes(r2) {
+							return nil
+						}
+					}
+				}
+			}
+		case *ssa.DebugRef:
+		default:
+			if escapes(ref) {
+				return nil
+			}
+		}
+	}
+	if store == nil || store.Parent() != u.Parent() {
+		return nil
+	}
+	if store.Block() == u.Block() {
+		if !after(u, store) {
+			return nil
+		}
+	} else if !dominatesBlock(store.Block(), u.Block()) {
+		return nil
+	}
+	return store.Val
 }
